@@ -123,6 +123,28 @@ META = {
             "last slow window >= twice its predecessor is read as part of the documented doubling pattern (Stan reference manual: the last window is extended)",
         ],
     ),
+    "C01": _m(
+        "M", "exploration", (1200, 300000), (300, 3000),
+        "Each run = one generated model program (4-22 items: bare Value nodes, strong vars with/without Dist or TransientDist "
+        "over 9 families, cached / transient Calc nodes incl. pytree-returning ones, TransientIdentity, InputGroup, weak vars, bare "
+        "Dist nodes with manual `at`, seeded nodes; scalars and vectors; per_obs on/off) and an op history of 10-60 ops produced by "
+        "2-4 interleaved logical tasks (single writer, optimiser-style batch writer toggling auto-update, targeted reader, "
+        "snapshotter restoring earlier incl. dirty states, full updater, fault armer, seeder). Odd run indices are the F1 sub-batch "
+        "(node functions armed to raise inside sweeps). Non-trivial = at least one assignment executed and, in the F1 sub-batch, at "
+        "least one fault fired; distinct = distinct (graph-shape hash, set of abstract states reached).",
+        "public mutating operations applied",
+        "distinct (graph-shape hash, set of (auto-update flag, multiset of outdated node kinds, snapshot depth)) pairs; op trigrams counted",
+        ["liesel.model: Value/Calc/TransientCalc/TransientIdentity/InputGroup/Dist/TransientDist/Var/VarValue, GraphBuilder.build_model, Model.update/state/auto_update/set_seed", "tensorflow_probability distributions"],
+        ["node functions: bounded jnp primitives wrapped in call counters with an armable F1 trigger", "distribution constructors wrapped in call counters"],
+        [
+            "bit-exact comparison is legitimate because RefGraph calls the same jnp/tfp functions eagerly on the same inputs",
+            "'ancestor' is the node-level relation re-derived from the plan (a var's dist parameters are ancestors of its dist node, not of its value node)",
+            "F1 relaxation: the failing op must raise; nodes may stay outdated; every node that reports up to date must still be exact; the assigned input may hold the old or the new value",
+            "nodes outside a targeted update's ancestor closure are not required to stay outdated",
+            "_model_* totals and hidden constant nodes are recomputed from scratch through their own function on reference inputs",
+        ],
+        run_cap_s=120, shrink_tests=500, shrink_s=60,
+    ),
 }
 
 
@@ -137,6 +159,15 @@ NOT_APPLICABLE["C18"] = (
 )
 
 MANIFEST_TEXT = {
+    "C01": dict(
+        technique="deterministic simulation with fault injection: seeded interleavings of logical client tasks over the real model graph, raising node functions, snapshot/restore; step invariants vs a from-scratch reference evaluator",
+        design_ref="DESIGN.md section 4 C01, section 3 world M",
+        level_text="Seeded search over graph programs x op histories (interleaved logical tasks) with F1 faults (node functions raising "
+        "mid-sweep); after every op every node that reports up to date is compared bit-exactly with a from-scratch evaluation, full and "
+        "targeted updates are checked for completeness, call counters for at-most-once / only-if-stale. Sampling, not a proof.",
+        level_note="Trusted: jnp/tfp primitives (same functions on both sides), the plan-derived ancestor relation. Node functions are stubs; "
+        "all of liesel.model is real.",
+    ),
     "C16": dict(
         technique="deterministic simulation: seeded append/next/has_more op histories with rejected-operation faults on the real EpochManager vs a reference validator; seeded stan_epochs argument sweep",
         design_ref="DESIGN.md section 4 C16",
